@@ -1,0 +1,10 @@
+//go:build verif
+
+package config
+
+import "github.com/urfave/cli/v2"
+
+// VerifGet exposes get(): the Config with all the basic fields set from the
+// command line / environment (or the YAML file named there), validated, but
+// without the derived fields (loggers, proxy backend, TLS configuration).
+func VerifGet(ctx *cli.Context) (*Config, error) { return get(ctx) }
